@@ -190,6 +190,18 @@ func runTreeWith(rd *rjson.ValueReader, sw *shardWriter, j *jb, data []byte, seg
 		}
 		return v, p, err
 	})
+	// the reader's exported handler methods used directly: a zero ValueReader handed to the traversal functions
+	// (the values it collects cannot be retrieved; success and offset can)
+	call(7, func() (interface{}, int, error) {
+		var z rjson.ValueReader
+		p, err := rjson.HandleArrayValues(data, &z, nil)
+		return nil, p, err
+	})
+	call(8, func() (interface{}, int, error) {
+		var z rjson.ValueReader
+		p, err := rjson.HandleObjectValues(data, &z, nil)
+		return nil, p, err
+	})
 	j.raw(`],"std":{"seen":`)
 	if len(data) > 1<<16 {
 		j.raw(`0,"ok":0,"tree":["none"]}`)
